@@ -119,6 +119,15 @@ let ks_of_hexkey (k : string) : M.n list =
   | Some ks -> ks
   | None -> let ks = M.key_schedule (M.key_pad (bytes_of_hex k)) in Hashtbl.add ks_cache k ks; ks
 
+let iv_of_hex h = if h = "-" then M.iv0 else bytes_of_hex h
+let split_on_string sep s = Str.split (Str.regexp_string sep) s
+(* a xor m, m padded with zeros to the length of a *)
+let rec xor_pad (a : M.n list) (m : M.n list) : M.n list =
+  match a, m with
+  | [], _ -> []
+  | x :: a', [] -> x :: xor_pad a' []
+  | x :: a', y :: m' -> byte_tab.((int_of_n x) lxor (int_of_n y)) :: xor_pad a' m'
+
 (* after the first space-separated n fields, the rest of the line *)
 let rest_after (line : string) (n : int) : string =
   let i = ref 0 and c = ref 0 in
@@ -149,18 +158,39 @@ let handle (line : string) : string =
   | ["DTV"; _] -> "SKIP"
   (* ---------------- codec ---------------- *)
   | "W" :: key :: iv :: crc :: sec :: nsec :: _ ->
-    (* W key iv crc sec nsec (msgs)  ->  OK cipher newiv *)
+    (* W key iv crc sec nsec (msgs): rscp.Write on the chain iv, then rscp.Read of the result on the same chain *)
     let ms = msgs_of_sx (sx_of_string (rest_after line 6)) in
-    let (c, iv') = M.model_write (ks_of_hexkey key) (bytes_of_hex iv) (crc = "1") (z_of_str sec) (z_of_str nsec) ms in
-    "OK " ^ hex_of_bytes c ^ " " ^ hex_of_bytes iv'
-  | "P" :: crc :: sec :: nsec :: _ ->
-    let ms = msgs_of_sx (sx_of_string (rest_after line 4)) in
-    "OK " ^ hex_of_bytes (M.model_plain (crc = "1") (z_of_str sec) (z_of_str nsec) ms)
+    let ks = ks_of_hexkey key and iv = iv_of_hex iv in
+    let (c, _) = M.model_write ks iv (crc = "1") (z_of_str sec) (z_of_str nsec) ms in
+    let p = M.model_plain (crc = "1") (z_of_str sec) (z_of_str nsec) ms in
+    let (vs, _) = M.model_feed ks M.rinit iv [c] in
+    Printf.sprintf "c=%s p=%s rt=%s" (hex_of_bytes c) (hex_of_bytes p) (verdict_str (List.nth vs (List.length vs - 1)))
+  | "WS" :: key :: crc :: _ ->
+    let parts = split_on_string " | " line in
+    let ks = ks_of_hexkey key in
+    let eiv = ref M.iv0 and div = ref M.iv0 in
+    String.concat " | " (List.map (fun fr ->
+      match String.split_on_char ' ' fr with
+      | sec :: nsec :: _ ->
+        let ms = msgs_of_sx (sx_of_string (rest_after fr 2)) in
+        let (c, e') = M.model_write ks !eiv (crc = "1") (z_of_str sec) (z_of_str nsec) ms in
+        eiv := e';
+        let (vs, d') = M.model_feed ks M.rinit !div [c] in
+        div := d';
+        "c=" ^ hex_of_bytes c ^ " rt=" ^ verdict_str (List.nth vs (List.length vs - 1))
+      | _ -> "?") (List.tl parts))
   | "R" :: key :: iv :: chunks ->
-    (* R key iv chunk chunk ...  ->  verdicts joined by " ; ", then the final chain value *)
-    let (vs, ivf) = M.model_feed (ks_of_hexkey key) M.rinit (bytes_of_hex iv) (List.map bytes_of_hex chunks) in
-    String.concat " ; " (List.map verdict_str vs) ^ " | " ^ hex_of_bytes ivf
+    let (vs, _) = M.model_feed (ks_of_hexkey key) M.rinit (iv_of_hex iv) (List.map bytes_of_hex chunks) in
+    String.concat " ; " (List.map verdict_str vs)
   | ["D"; plain] -> verdict_str (M.decode_frame (bytes_of_hex plain))
+  | ["X"; orig; mask] ->
+    let o = bytes_of_hex orig in
+    let a = xor_pad o (bytes_of_hex mask) in
+    let us s = String.map (fun c -> if c = ' ' then '_' else c) s in
+    "orig=" ^ us (verdict_str (M.decode_frame o)) ^ " got=" ^ verdict_str (M.decode_frame a)
+  | ["XC"; key; ct; mask] ->
+    let (vs, _) = M.model_feed (ks_of_hexkey key) M.rinit M.iv0 [xor_pad (bytes_of_hex ct) (bytes_of_hex mask)] in
+    verdict_str (List.hd vs)
   | ["CRC"; d] -> str_of_n (M.crc32 (bytes_of_hex d))
   | ["ENC"; key; iv; p] -> let (c, iv') = M.c_enc (ks_of_hexkey key) (bytes_of_hex iv) (bytes_of_hex p) in hex_of_bytes c ^ " " ^ hex_of_bytes iv'
   | ["KEY"; k] -> hex_of_bytes (M.key_pad (bytes_of_hex k))
